@@ -9,7 +9,7 @@ alloc = KaniUnit("c15_alloc", CORE,
                  modules=[dict(file=EL, src="c15_alloc.rs")],
                  harnesses=[H("c15_adjacency_sized_by_vertices", "complete", "EdgeLoader::try_from: both adjacency vectors are allocated with n_vertices slots (all usize)", timeout=120)])
 lw = KaniUnit("c15_loader_wit", CORE, modules=[dict(file=CORE + "/src/model/network/graph_loader.rs", src="c15_loader_wit.rs")], harnesses=[])
-lw.native_witnesses = ["c15_wit_loaded_network_is_the_listed_one", "c15_wit_edge_naming_a_vertex_beyond_the_vertex_list"]
+lw.native_witnesses = ["c15_wit_loaded_network_is_the_listed_one", "c15_wit_edge_naming_a_vertex_beyond_the_vertex_list", "c15_wit_vertex_columns_in_any_order"]
 bw = VerusUnit("c15_builder", "c15_builder", rlimit=30)
 UNITS = [bw, VerusUnit("c15_graph", "c15_graph", rlimit=60, paired_kani=(lw, [])), VerusUnit("c11_container", "c11_container", rlimit=60), alloc, lw]
 EXPLANATION = ("DefaultGraphBuilder::build (unit c15_builder, verbatim, glue): the graph is the one loaded from THE edge file and THE vertex file the configuration names, with ITS n_edges as the number of edges and ITS n_vertices as the number of vertices; EdgeLoader::try_from as a whole under contract (unit c15_graph, Verus on the verbatim function; `read_utils::from_csv` + row callback as ONE assumed helper that reads ANY rows and processes them in order as the verified callback does; progress bar dropped): a load that succeeds exposes, for EVERY listed edge, the edge in the out-list of its source AND in the in-list of its destination, both inside the vertex list -- the forward and the reverse view describe the same edge set (lemma_chain_complete, induction over the rows; FAILED on the pinned code: an edge naming a vertex outside the vertex list was stored in one view only -- fixed bd464b1); lemmas by induction over the rows (unit c15_graph): after all rows the out-list of a vertex holds exactly the listed edges that leave it, the in-list exactly those that enter it; file reading / parsing / decompression (csv, serde, flate2, std::fs) is outside both back ends: 'loaded == listed' is NOT decided. Decided (in-memory half): the per-row adjacency update of "
